@@ -946,10 +946,11 @@ class SQLTranslator(ASTTranslator):
                 else:
                     for node in nodes:
                         monad = node.monad
+                        if monad.type is not bool: monad = monad.nonzero()  # the same as for the `if` section of generator
                         if isinstance(monad, AndMonad): cond_monads = monad.operands
                         else: cond_monads = [ monad ]
                         for m in cond_monads:
-                            if not m.aggregated: translator.conditions.extend(m.getsql())
+                            if not getattr(m, 'aggregated', False): translator.conditions.extend(m.getsql())
                             else: translator.having_conditions.extend(m.getsql())
                 translator.vars = None
                 return translator
